@@ -58,7 +58,7 @@ CLAIMS = {
               'exception-class propagation over the call graph + path dominance + table/doc agreement + regex AST',
               'DESIGN.md 5 C09'),
     'C10': _c('Exactly one emit per reference callback on every normal path, one callback per reduction, every pair of label kinds forms a range production, cell/range payload origin, '
-              'setter keeps falsy values (a listener's return value is not an answer), default blank, private token stream per parse, exact label/index converters.',
+              'setter keeps falsy values (the return value of a listener is not an answer), default blank, private token stream per parse, exact label/index converters.',
               'path enumeration (exactly-once) + origin tracking + type-tag evaluation of setter closures',
               'DESIGN.md 5 C10'),
     'C11': _c('Structural clauses only: error item becomes the result (full drain), whole *args through the flattener, delegation table '
